@@ -32,7 +32,7 @@ RULE += ('; also: task types resembling launcher attributes, processes failing a
 ASSUMPTIONS = ['the RabbitMQ transport is replaced by the in-process communicator of pv/comm.py', 'errors may arrive wrapped in RemoteException']
 REQUIRED = ['unsaveable_persist_tasks', 'second_launcher_continues', 'late_failures', 'tasks/create', 'tasks/launch', 'tasks/continue', 'tasks/bogus', 'rejected', 'persisted_checks', 'nowait_replies', 'wait_replies', 'error_replies',
             'route/direct', 'route/thread', 'route/async', 'persister/none', 'persister/mem', 'persister/pickle', 'persister/failing', 'loader/custom',
-            'loader/custom_ctx', 'continued_from_tag', 'traces_checked', 'killed_replies', 'launcher_built_elsewhere', 'absent_tag_with_untagged_checkpoint']
+            'loader/custom_ctx', 'continued_from_tag', 'traces_checked', 'killed_replies', 'launcher_built_elsewhere', 'absent_tag_with_untagged_checkpoint', 'counted_persister']
 BOUNDS = {'quick': '400 histories', 'thorough': '6000 histories'}
 
 S = programs.step
@@ -63,6 +63,13 @@ class LateFail(programs.ProgBase):
 
 generated.register(LateFail, 'LateFail')
 generated.register(Unpicklable, 'Unpicklable')
+
+
+class CountedPersister(plumpy.InMemoryPersister):
+    """A persister that can say how many checkpoints it holds (so an empty one is falsy, like any empty container)."""
+
+    def __len__(self):
+        return len(self.get_checkpoints())
 
 
 class FailingPersister(plumpy.InMemoryPersister):
@@ -102,7 +109,8 @@ def gen_cases(tier, seed):
                 hist.append(['bogus', rng.choice(BOGUS)])
         # the launcher object is usually built inside the loop that serves it; it may as well be built beforehand, while another loop
         # (or none of its own) is the thread's current one and without naming a loop
-        yield {'persister': persister, 'loader': loader, 'route': route, 'history': hist, 'built': 'elsewhere' if i % 5 == 2 else 'in-loop'}
+        yield {'persister': persister, 'loader': loader, 'route': route, 'history': hist, 'built': 'elsewhere' if i % 5 == 2 else 'in-loop',
+               'counted': persister == 'mem' and i % 12 < 6}
 
 
 #: unknown task types, among them names that resemble the known ones or attributes of the launcher object
@@ -137,7 +145,7 @@ def _reply(fut):
 
 def run_case(case):
     V = judges.V
-    obs = {'tasks': {}, 'rejected': 0, 'persisted_checks': 0, 'nowait_replies': 0, 'wait_replies': 0, 'error_replies': 0, 'route': {case['route']: 1},
+    obs = {'counted_persister': int(bool(case.get('counted'))), 'tasks': {}, 'rejected': 0, 'persisted_checks': 0, 'nowait_replies': 0, 'wait_replies': 0, 'error_replies': 0, 'route': {case['route']: 1},
            'persister': {case['persister']: 1}, 'loader': {case['loader']: 1}, 'continued_from_tag': 0, 'traces_checked': 0, 'custom_loads': 0, 'bogus_names': {}}
     viol = []
     workdir = tempfile.mkdtemp(prefix='c17-', dir=os.environ.get('PV_WORK') or None)
@@ -152,7 +160,7 @@ def run_case(case):
             loader = None
             if case['loader'] != 'default':
                 loader = c19.LenientCountingLoader() if case['persister'] == 'pickle' else c19.CountingLoader()
-            persister = {'none': lambda: None, 'mem': lambda: plumpy.InMemoryPersister(loader), 'pickle': lambda: plumpy.PicklePersister(workdir),
+            persister = {'none': lambda: None, 'mem': lambda: (CountedPersister if case.get('counted') else plumpy.InMemoryPersister)(loader), 'pickle': lambda: plumpy.PicklePersister(workdir),
                          'failing': lambda: FailingPersister(loader)}[case['persister']]()
             kwargs = {'loop': loop, 'persister': persister, 'loader': loader}
             if case['loader'] == 'custom_ctx':
